@@ -59,12 +59,13 @@ done
 
 rm -f .out/$id_lc.race.* ".out/$id_lc.log"
 [ "$MODE" = replay ] || rm -f "$OUT/evidence/$ID.json"
-export GORACE="halt_on_error=0 log_path=$ROOT/.out/$id_lc.race"
+# exitcode=0: a race report must not change the exit code; tools/race_filter.py decides what a report means
+export GORACE="halt_on_error=0 exitcode=0 log_path=$ROOT/.out/$id_lc.race"
 export VERIF_BIN_DIR="$ROOT/.bin" VERIF_BIN_PREFIX="$id_lc"
 timeout -s QUIT -k 20 "$WD" "$BIN" > ".out/$id_lc.log" 2>&1
 rc=$?
 # print verdict-relevant lines (full log stays in .out)
-grep -E '^(VIOLATION|KNOWN-FINDING|SUMMARY|INCONCLUSIVE|  signature:|  clause:)' ".out/$id_lc.log"
+grep -E '^(VIOLATION|KNOWN-FINDING|SUMMARY|INCONCLUSIVE|NOTE|  signature:|  clause:)' ".out/$id_lc.log"
 python3 tools/race_filter.py "$ID" ".out/$id_lc.race" "$MODE"
 rrc=$?
 if grep -q '^VIOLATION ' ".out/$id_lc.log" || [ "$rrc" = 1 ]; then
